@@ -36,6 +36,11 @@ def nodupStr : List Str → Bool
   | [] => true
   | x :: xs => !xs.contains x && nodupStr xs
 
+/-- Keep the first occurrence of every name. -/
+def dedupStr : List Str → List Str
+  | [] => []
+  | x :: xs => x :: (dedupStr xs).filter (· != x)
+
 /-- Identifier-like marker name (`[A-Za-z_][A-Za-z0-9_]*`): plain for `regex::escape`, valid as a group name,
 unchanged by percent-encoding. -/
 def identName : Str → Bool
@@ -69,10 +74,11 @@ def layerIc (cfg : Config) : Layer → Bool
   | .header _ => false
 
 /-- The rule is in the simple shape the instantiation oracle speaks about: identifier-like distinct marker
-names, every marker used at most once over all layers, each group delimited for the instantiation. -/
+names, every marker used in at most one layer (it may be repeated inside that layer: both occurrences are
+instantiated with the same value), each group delimited for the instantiation. -/
 def Rule.simpleFor (cf : CaseFns) (r : Rule) (cfg : Config) (inst : List (Str × Str)) : Bool :=
   let ls := r.layers
-  let used := ls.flatMap fun l => groupNames l.2
+  let used := ls.flatMap fun l => dedupStr (groupNames l.2)
   r.markers.all (fun m => identName m.name) && nodupStr (r.markers.map (·.name)) && nodupStr used &&
   used.all (fun n => (inst.lookup n).isSome) &&
   ls.all fun l => delimitedFor (fun n => normValue cf cfg l.1 ((inst.lookup n).getD [])) l.2
@@ -80,7 +86,7 @@ def Rule.simpleFor (cf : CaseFns) (r : Rule) (cfg : Config) (inst : List (Str ×
 /-- The captures the instantiation should produce: `(name, normalised value)` for every used marker, in
 path, host, header order. -/
 def Rule.instCaptured (cf : CaseFns) (r : Rule) (cfg : Config) (inst : List (Str × Str)) : List (Str × Str) :=
-  r.layers.flatMap fun l => groupValues l.2 fun n => normValue cf cfg l.1 ((inst.lookup n).getD [])
+  r.layers.flatMap fun l => (dedupStr (groupNames l.2)).map fun n => (n, normValue cf cfg l.1 ((inst.lookup n).getD []))
 
 /-- Is every instantiated value accepted by its marker expression (as the layer evaluates it)?  `acc ic re v` =
 "`v` is in the language of `re`" (`^(?:re)$`). -/
